@@ -375,13 +375,14 @@ class SymInt:
                 return mk(q, self.iv / o, self.lo // o, self.hi // o)
             return mk(bv_divmod(self.bv, o)[0], self.iv / o, self.lo // o, self.hi // o)
         if isinstance(o, SymInt):
-            raise Unsupported("division by a symbolic value")
+            # a divisor with few feasible values (an enumerated geometry read from the file): fork over them
+            return self // eng().concretize(o, cap=8)
         if isinstance(o, int) and o == 0:
             raise ZeroDivisionError("integer division or modulo by zero")
         raise Unsupported("floor division by a non-positive constant")
 
     def __rfloordiv__(self, o):
-        raise Unsupported("division by a symbolic value")
+        return o // eng().concretize(self, cap=8)
 
     def __truediv__(self, o):
         raise Unsupported("true division of a symbolic integer")
@@ -405,7 +406,7 @@ class SymInt:
                 return self
             return mk(bv_divmod(self.bv, o)[1], self.iv % o, 0, min(o - 1, self.hi))
         if isinstance(o, SymInt):
-            raise Unsupported("modulo by a symbolic value")
+            return self % eng().concretize(o, cap=8)
         if isinstance(o, int) and o == 0:
             raise ZeroDivisionError("integer division or modulo by zero")
         raise Unsupported("modulo by a non-positive constant")
